@@ -100,7 +100,7 @@ var errCallNames = map[string]bool{
 	"Error": true, "MaxCallStackExceeded": true, "Fatal": true, "Fatalf": true, "Panic": true, "Panicf": true,
 }
 
-func exprText(fset *token.FileSet, e ast.Expr) string {
+func sitesExprText(fset *token.FileSet, e ast.Expr) string {
 	var b bytes.Buffer
 	printer.Fprint(&b, fset, e)
 	return strings.Join(strings.Fields(b.String()), " ")
@@ -215,7 +215,7 @@ func init() {
 							// constructors of diagnostics (linter/errors.go) return *LintError
 							if a.Type.Results != nil {
 								for _, r := range a.Type.Results.List {
-									rt := exprText(fset, r.Type)
+									rt := sitesExprText(fset, r.Type)
 									if rt == "*LintError" || rt == "*exception.Exception" {
 										kind = "errmsg"
 									}
@@ -227,7 +227,7 @@ func init() {
 					if fn == "String" {
 						kind = "renderer"
 					}
-					sites = append(sites, site{filepath.ToSlash(fname), fn, exprText(fset, recv), kind})
+					sites = append(sites, site{filepath.ToSlash(fname), fn, sitesExprText(fset, recv), kind})
 					return true
 				})
 			}
